@@ -526,6 +526,35 @@ pub fn run(repo: &str, unit_path: &str, canary: bool) -> std::result::Result<Run
                     src_line = line;
                     rewrites.push(json!({"rule": "R12", "in": target, "file": file, "src_line": line,
                         "before": format!("match arm `{armtxt}` of {target}"), "after": "lifted into a function of its own (locals it uses become parameters; the dispatcher around it is dropped)"}));
+                } else if let Some(pattxt) = o.get("iflet") {
+                    // R12b: the then-block of an `if let <pattern> = ..` lifted into a function of its own (`iflet=<pattern>`),
+                    // same conventions as `arm=` (tail=, sig: line; the bound variable becomes a parameter)
+                    let want = norm_str(pattxt).ok_or(format!("bad iflet= text in {target}"))?;
+                    struct FindIf { want: String, found: Option<(Block, usize)> }
+                    impl<'ast> syn::visit::Visit<'ast> for FindIf {
+                        fn visit_expr_if(&mut self, e: &'ast syn::ExprIf) {
+                            if self.found.is_none() {
+                                if let Expr::Let(l) = &*e.cond {
+                                    if norm(&l.pat.to_token_stream()) == self.want {
+                                        self.found = Some((e.then_branch.clone(), e.if_token.span.start().line));
+                                    }
+                                }
+                            }
+                            syn::visit::visit_expr_if(self, e);
+                        }
+                    }
+                    let mut fi = FindIf { want, found: None };
+                    syn::visit::Visit::visit_block(&mut fi, &body);
+                    let (mut blk, line) = fi.found.ok_or(format!("lost-anchor iflet `{pattxt}` in {target}"))?;
+                    if let Some(t) = o.get("tail") {
+                        let te: Expr = parse_str(t).map_err(|e| format!("bad tail= in {target}: {e}"))?;
+                        blk.stmts.push(Stmt::Expr(te, None));
+                    }
+                    body = blk;
+                    orig_text = norm(&body.to_token_stream());
+                    src_line = line;
+                    rewrites.push(json!({"rule": "R12", "in": target, "file": file, "src_line": line,
+                        "before": format!("then-block of `if let {pattxt} = ..` in {target}"), "after": "lifted into a function of its own (the bound variable and the locals it uses become parameters)"}));
                 } else {
                     cl.visit_block_mut(&mut body);
                     for n in closure_repl.keys() {
@@ -613,7 +642,7 @@ pub fn run(repo: &str, unit_path: &str, canary: bool) -> std::result::Result<Run
                     sigtxt.push_str(&format!(" {}", wc.to_token_stream()));
                 }
                 // a lifted closure has no signature of its own: the template supplies it on a contract line `sig: <text>`
-                if o.contains_key("closure") || o.contains_key("arm") {
+                if o.contains_key("closure") || o.contains_key("arm") || o.contains_key("iflet") {
                     let pos = contract.iter().position(|l| l.trim_start().starts_with("sig:")).ok_or("closure= needs a `sig: fn name(..) -> (r: T)` line")?;
                     let l = contract.remove(pos);
                     sigtxt = l.trim_start()["sig:".len()..].trim().to_string();
@@ -700,6 +729,7 @@ pub fn run(repo: &str, unit_path: &str, canary: bool) -> std::result::Result<Run
                             let tyname = target.rsplit_once("::").map(|(t, _)| t.to_string()).unwrap_or_default();
                             rec["emitted_as"] = json!(format!("{tyname}::{newname}"));
                             if let Some(a) = o.get("arm") { rec["lifted"] = json!(format!("match arm `{a}`")); }
+                            if let Some(a) = o.get("iflet") { rec["lifted"] = json!(format!("then-block of `if let {a}`")); }
                             if let Some(c) = o.get("closure") { rec["lifted"] = json!(format!("closure #{c}")); }
                         }
                     }
